@@ -22,6 +22,8 @@ def _graph_cases(tier):
                                           if A.graph_size(g) == 4]
     # 4-node trees over payloads that bring their own imports (List / Dict values): import collection across nesting levels
     specs += [g for g in A.graph_specs(4, payloads=("P1", "P3l", "P4d"), wrappers=("plain", "list")) if A.graph_size(g) == 4]
+    # a Literal value with a line-separator character inside a class that the nested layout indents
+    specs += [g for g in A.graph_specs(3, payloads=("P1", "P3u"), wrappers=("plain", "list")) if "P3u" in A.graph_name(g) and A.graph_size(g) >= 2]
     for spec in specs:
         for merge in ("default", "exact"):
             yield {"in": ["G", spec], "merge": merge, "opts": "std"}
@@ -64,10 +66,26 @@ def _cases(tier):
     for v in A.VALUE_NAMES:
         for v2 in ("null", A.ABSENT, None):
             yield {"in": ["V", v, v2], "opts": "conv"}
+    # user-given root model names (what -m NAME supplies): plural / snake / lower-case / reserved names next to keys whose generated
+    # class name is the singular CamelCase form of the same word; two roots whose names differ only by that normalisation
+    for name in ROOT_NAMES:
+        yield {"in": ["R", [name]], "opts": "std"}
+    for name in ROOT_NAMES:
+        # a model used by two siblings is placed under the root and referenced through the root's (sanitised) name
+        yield {"in": ["R", [name], "shared"], "opts": "std", "judge_nontree": True}
+    for pair in (["Photo", "Photos"], ["Users", "User"], ["order_lines", "OrderLine"], ["Item", "Items"], ["Field", "Fields"]):
+        yield {"in": ["R", pair], "opts": "std"}
+
+
+ROOT_NAMES = ["Users", "users", "User", "Photos", "order_lines", "OrderLine", "Field", "List", "Optional", "Any", "Literal", "Items", "item", "Data",
+              "BaseModel", "datetime", "Root_2"]
+ROOT_BODY = {"users": [{"id": 1, "photos": [{"w": 1}]}], "order_lines": [{"q": 2}], "field": {"z": 1}, "item": {"list": {"v": 1}}, "n": 1}
 
 
 def _samples(case):
     tag = case["in"][0]
+    if tag == "R":
+        return None, None
     if tag == "G":
         return A.graph_samples(case["in"][1]), [r"k\d"]
     if tag == "K":
@@ -139,7 +157,19 @@ def _shape(case):
         if not toks:
             toks = ["sym:" + ("sp" if c == " " else c) for c in sorted(set(k))]
         return toks
+    if tag == "R":
+        return ["root:" + n for n in case["in"][1]] + (["shared_child"] if len(case["in"]) > 2 else [])
     return [x for x in case["in"][1:] if x is not None]
+
+
+def _build(case, samples, dkr):
+    if case["in"][0] == "R":
+        import copy
+        names = case["in"][1]
+        body = ROOT_BODY if len(case["in"]) < 3 else {"a": {"item": {"v": 1}, "p": 1}, "b": {"item": {"v": 2}, "q": "s"}}
+        roots = {n: [dict(copy.deepcopy(body), **{f"own{i}": i, f"extra{i}": [i]})] for i, n in enumerate(names)}
+        return pipeline.build_roots(roots, types=pipeline.ALL_TYPES, merge=case.get("merge", "default"))
+    return pipeline.build(samples, types=pipeline.ALL_TYPES, dkr=dkr, merge=case.get("merge", "default"))
 
 
 def execute(case):
@@ -148,16 +178,16 @@ def execute(case):
     viol, obs, outcomes = [], [], []
     execs = 0
     try:
-        b0 = pipeline.build(samples, types=pipeline.ALL_TYPES, dkr=dkr, merge=case.get("merge", "default"))
+        b0 = _build(case, samples, dkr)
         tree = judge.is_tree(b0.reg)
     except Exception as e:
         return {"obs": ["exc"], "viol": [], "outcome": "build_raises(C01's business):" + core.exc_site(e), "show": str(e)[:80]}
     seen_clause = set()
     for fw, layout, kw in _configs(case, tree):
-        judged = layout == "flat" or tree
+        judged = layout == "flat" or tree or bool(case.get("judge_nontree"))
         tag = fw + "".join("+" + k[:4] for k in sorted(kw)) + ("/nested" if layout == "nested" else "")
         try:
-            b = pipeline.build(samples, types=pipeline.ALL_TYPES, dkr=dkr, merge=case.get("merge", "default"))
+            b = _build(case, samples, dkr)
             text = pipeline.render(b.reg, fw, layout, **kw)
             execs += 1
         except Exception as e:
